@@ -3,7 +3,7 @@
 # (evidence goes to build/seed-evidence so that committed evidence always comes from the unchanged tree), then restores /repo.
 id=$1; shift
 cd /verif
-if ! git -C /repo apply --3way seeded/$id/patch.diff >/dev/null 2>&1; then echo "$id: patch does not apply"; git -C /repo checkout -- . ; exit 3; fi
+if ! git -C /repo apply --3way /verif/seeded/$id/patch.diff >/dev/null 2>&1; then echo "$id: patch does not apply"; git -C /repo reset -q; git -C /repo checkout -- . ; exit 3; fi
 git -C /repo reset -q
 for p in "$@"; do
   out=$(RWS_EVIDENCE_DIR=/verif/build/seed-evidence ./check $p 2>&1); rc=$?
